@@ -218,6 +218,10 @@ def harmonize_datasets(
             cardinality = len(cases_dataset)
             cases_dataset, labels_dataset, targets_dataset =\
                 split_and_convert_column_dataloader(cases_dataset, labels_dataset, targets_dataset)
+            # as for tf datasets, the batch size is the size of the first batch (it is smaller
+            # than the dataloader's one when there are fewer cases than its `batch_size`)
+            if batch_size is not None:
+                batch_size = min(batch_size, tf.shape(next(iter(cases_dataset)))[0].numpy())
         else:
             raise AttributeError(error_message)
 
